@@ -97,6 +97,17 @@ fn expect(kind: Kind, r: &[Option<Rd>]) -> Vec<Option<Ex>> {
         }
     }
 }
+/// For a terminal the update is not required to write (the informed side of a one-sided inverter / gear
+/// train, the trusted branches of a differential that recomputes its distrusted branch): the statement's
+/// projection leaves the value READ there as it is, so an implementation may either leave the own slot
+/// alone (what the crate does) or store that read in it. Returns that permitted alternative content.
+fn permitted_alternative(kind: Kind, r: &[Option<Rd>], exp: &[Option<Ex>], i: usize) -> Option<Ex> {
+    let acted = exp.iter().any(|e| e.is_some());
+    match kind {
+        Kind::Invert | Kind::Gear(_) | Kind::Diff(0) | Kind::Diff(1) | Kind::Diff(2) if acted && exp[i].is_none() => r[i].as_ref().map(|x| lin(&[(1.0, x)], 1.0)),
+        _ => None,
+    }
+}
 const K: f64 = 48.0;
 fn kind_name(k: Kind) -> String {
     match k { Kind::Invert => "Invert".into(), Kind::Gear(_) => "GearTrain".into(), Kind::Axle(n) => format!("Axle<{}>", n), Kind::Diff(m) => format!("Differential/{}", ["Side1", "Side2", "Sum", "Equal"][m as usize]) }
@@ -175,7 +186,12 @@ fn rounds<'a>(rep: &mut Report, sub: &'static str, case: u64, kind: Kind, terms:
             match (&exp[i], &after) {
                 (None, a) => {
                     let same_slot = match (a, &before[i]) { (None, None) => true, (Some(x), Some(y)) => x.time == y.time && ssame(&x.value, &y.value), _ => false };
-                    if !same_slot {
+                    let alt_ok = match (permitted_alternative(kind, &reads, &exp, i), a) {
+                        (Some(e), Some(x)) => x.time.0 == e.t && (0..3).all(|k| within([x.value.position, x.value.velocity, x.value.acceleration][k], e.v[k], K * U * e.m[k]).0),
+                        _ => false,
+                    };
+                    if alt_ok { rep.tally(&format!("slots_holding_their_read/{}", name)); }
+                    if !same_slot && !alt_ok {
                         rep.violation(&format!("C08/untouched-slot-changed/{}", name), sub, case, format!("round {} terminal {}: own slot {:?} -> {:?} but the statement leaves it alone (reads {:?}); kind={:?} log={}", round, i, before[i], a, reads, kind, log));
                         return;
                     }
